@@ -21,7 +21,7 @@ GenNext ==
   /\ rd.pc # "done"
   /\ \/ Step("WInsert", WInsert) \/ Step("WPublish", WPublish) \/ Step("Rotate", Rotate)
      \/ Step("FBuild", FBuild) \/ Step("F1", F1) \/ Step("F2", F2)
-     \/ Step("R1", R1) \/ Step("R2", R2) \/ Step("R3", R3)
+     \/ Step("R1", R1) \/ Step("R2", R2) \/ Step("R3", R3) \/ Step("Compact", Cardinality(tabs[ver]) >= 2 /\ Compact)   \* compacting a single entry changes nothing a reader can see
 GenSpec == GenInit /\ [][GenNext]_gvars
 
 \* printed once per finished schedule (every state with rd.pc = "done" is terminal and distinct)
